@@ -38,7 +38,17 @@
    end, in particular every descendant of a container-less object reports its
    resource.  The precondition cannot be dropped: x.kids.append(x) makes
    acyclic_cont false in the model (C02_cycle_excluded_witness), while WF
-   (single owner etc.) holds even then. *)
+   (single owner etc.) holds even then.
+   Bulk move (Proofs/BulkMove.v, end of this file): x.f.extend(y.f) / += / update
+   with the LIVE collection of another object, i.e. OExtend x f (vals s (y,f)),
+   for a unique many-valued containment f (with or without container end),
+   from any WF state: the receiver's list is the old one followed by the
+   snapshot, the source slot ends empty, each moved child names (x,f) as its
+   container, every other container pointer and containment slot is unchanged;
+   the aliasing call x.f.extend(x.f) changes no containment slot and no
+   container pointer.  Premises: the snapshot holds object references that pass
+   the type check (otherwise the call raises and, by atomicity, changes
+   nothing).  No acyclicity premise is needed for these equations. *)
 From Coq Require Import ZArith List Bool Arith.
 From PyecoreV Require Import Lib.PyBase Lib.PyList Model.Kernel Proofs.C01Full Proofs.C02Proofs Proofs.WFBase Proofs.SymLink
   Proofs.OwnAll Proofs.WFCorollaries Model.Premises Proofs.PremisesProofs.
@@ -197,3 +207,55 @@ Example C02_cycle_excluded_witness :
   WF m (next m s (OAppend 1 0 (VObj 0))).
 Proof. exact cycle_excluded. Qed.
 Print Assumptions C02_cycle_excluded_witness.
+
+(* ---------- bulk move of contained children: x.f.extend(y.f) ---------- *)
+From PyecoreV Require Import Proofs.BulkMove.
+
+Theorem C02_extend_by_another_owners_collection_moves_every_child :
+  forall m, wf_mm m -> forall f,
+    f_cont (fd m f) = true -> f_many (fd m f) = true -> f_unique (fd m f) = true ->
+  forall s x y,
+    WF m s -> x <> y ->
+    (forall v, In v (vals s (y, f)) -> exists c : oid, v = VObj c) ->
+    forallb (check_elem m f) (vals s (y, f)) = true ->
+    let s' := next m s (OExtend x f (vals s (y, f))) in
+    WF m s' /\
+    vals s' (x, f) = vals s (x, f) ++ vals s (y, f) /\
+    vals s' (y, f) = [] /\
+    (forall c : oid, In (VObj c) (vals s (y, f)) -> cont s' c = Some (x, f)) /\
+    (forall c : oid, ~ In (VObj c) (vals s (y, f)) -> cont s' c = cont s c) /\
+    (forall (p : oid) (h : fid), f_cont (fd m h) = true -> (p, h) <> (x, f) -> (p, h) <> (y, f) ->
+       vals s' (p, h) = vals s (p, h)).
+Proof. exact bulk_move. Qed.
+Print Assumptions C02_extend_by_another_owners_collection_moves_every_child.
+
+Theorem C02_extend_by_the_own_collection_moves_nothing :
+  forall m, wf_mm m -> forall f,
+    f_cont (fd m f) = true -> f_many (fd m f) = true -> f_unique (fd m f) = true ->
+  forall s x,
+    WF m s ->
+    (forall v, In v (vals s (x, f)) -> exists c : oid, v = VObj c) ->
+    forallb (check_elem m f) (vals s (x, f)) = true ->
+    let s' := next m s (OExtend x f (vals s (x, f))) in
+    WF m s' /\ vals s' (x, f) = vals s (x, f) /\
+    (forall c : oid, cont s' c = cont s c) /\
+    (forall (p : oid) (h : fid), f_cont (fd m h) = true -> vals s' (p, h) = vals s (p, h)).
+Proof. exact bulk_self. Qed.
+Print Assumptions C02_extend_by_the_own_collection_moves_nothing.
+
+(* two A's holding [2; 3] and [4]: b.kids += a.kids, and a.kids += a.kids *)
+Example C02_bulk_move_witness :
+  let m := ex_mm_bulk in
+  let s := fold_left (next m) ex_bulk_ops (init_state m) in
+  let s' := next m s (OExtend 1 0 (vals s (0, 0))) in
+  let s'' := next m s (OExtend 0 0 (vals s (0, 0))) in
+  WF m s /\
+  (vals s (0, 0), vals s (1, 0), map (cont s) [2; 3; 4]) =
+    ([VObj 2; VObj 3], [VObj 4], [Some (0, 0); Some (0, 0); Some (1, 0)]) /\
+  (WF m s' /\ vals s' (1, 0) = vals s (1, 0) ++ vals s (0, 0) /\ vals s' (0, 0) = []) /\
+  (vals s' (0, 0), vals s' (1, 0), map (cont s') [2; 3; 4], map (fun c => vals s' (c, 1)) [2; 3; 4]) =
+    ([], [VObj 4; VObj 2; VObj 3], [Some (1, 0); Some (1, 0); Some (1, 0)], [[VObj 1]; [VObj 1]; [VObj 1]]) /\
+  (vals s'' (0, 0), vals s'' (1, 0), map (cont s'') [2; 3; 4]) =
+    ([VObj 2; VObj 3], [VObj 4], [Some (0, 0); Some (0, 0); Some (1, 0)]).
+Proof. exact bulk_move_witness. Qed.
+Print Assumptions C02_bulk_move_witness.
